@@ -1,6 +1,6 @@
 (* ApiV2/Props.v — property C15: the theorems, nothing else.
    Each is closed by [exact <lemma>] and followed by Print Assumptions. *)
-From Verif Require Import ApiV2.Model ApiV2.ProofsKey ApiV2.ProofsRegion ApiV2.ProofsStore ApiV2.ProofsPD ApiV2.Catalogue.
+From Verif Require Import ApiV2.Model ApiV2.ProofsKey ApiV2.ProofsRegion ApiV2.ProofsStore ApiV2.ProofsPD ApiV2.ProofsProgram ApiV2.Catalogue.
 Open Scope N_scope.
 
 (* --- keys --- *)
@@ -226,6 +226,23 @@ Theorem C15_reencoding_client_refuted : exists c k v,
 Proof. exact reencode_refuted. Qed.
 Print Assumptions C15_reencoding_client_refuted.
 
+(* --- programs of transmissions: retransmissions, lost answers and region errors, any interleaving of clients --- *)
+(* every event is one transmission (the (n+1)-th of its request) that the store refuses with a region error describing
+   a physical layout, executes without the answer arriving, or executes and answers. What client c learns - results,
+   and the decoded region descriptions of region errors - and the final contents of its keyspace are those of an
+   unprefixed client going through the same schedule on c's logical view, whose region errors show the logical layout
+   (each physical region's share of the keyspace, in order: C15_pd_scan) *)
+Theorem C15_transparency : forall c, ks_ok c -> forall tr st, store_ok st -> Forall wf_event tr ->
+  proj_obs c (trun tr st) = ltrun (layout c) (proj_events c tr) (view c st) /\
+  view c (trun_store tr st) = ltrun_store (layout c) (proj_events c tr) (view c st) /\
+  store_ok (trun_store tr st).
+Proof. exact trun_transparent. Qed.
+Print Assumptions C15_transparency.
+
+Theorem C15_transparency_layout : forall c phys, layout c (map menc_region phys) = flat_map (clip_region c) phys.
+Proof. exact layout_phys. Qed.
+Print Assumptions C15_transparency_layout.
+
 (* --- catalogue: meaning of the generated finite check --- *)
 Theorem C15_catalogue_meaning : forall fields cmds, catalogue_ok fields cmds = true ->
   (forall f, In f fields -> f_obs f = expected f /\ f_foreign_rejected f = true) /\
@@ -279,6 +296,18 @@ Example ex_buckets :
     = Some [[]; [5]; []]
   /\ parse_keyspace_id [120; 0; 1; 2; 9] = Some 258 /\ parse_keyspace_id [109; 0; 1; 2] = None /\ parse_keyspace_id [120; 0; 1] = None.
 Proof. repeat split; vm_compute; reflexivity. Qed.
+Example ex_program_with_retries :
+  let a := mkks Raw 255 in let b := mkks Raw 256 in
+  let phys := [([], [114;0;0;255;109]); ([114;0;0;255;109], [114;0;1]); ([114;0;1], [114;0;1;0]); ([114;0;1;0], [])] in
+  Forall wf_event [(a, OPut [1] [10], 0%nat, Refused (map menc_region phys)); (a, OPut [1] [10], 1%nat, Lost); (b, OPut [1] [20], 0%nat, Answered);
+                   (a, OPut [1] [10], 2%nat, Answered); (a, OScan true [] [] 5, 0%nat, Answered)] /\
+  trun [(a, OPut [1] [10], 0%nat, Refused (map menc_region phys)); (a, OPut [1] [10], 1%nat, Lost); (b, OPut [1] [20], 0%nat, Answered);
+        (a, OPut [1] [10], 2%nat, Answered); (a, OScan true [] [] 5, 0%nat, Answered)] []
+  = [(a, ORegions (Some [([], [109]); ([109], [])])); (a, ONothing); (b, OResult RUnit); (a, OResult RUnit); (a, OResult (RPairs [([1], [10])]))].
+Proof.
+  split; [|vm_compute; reflexivity].
+  repeat constructor; try (unfold ks_ok; cbn; reflexivity); cbn [snd]; eexists; reflexivity.
+Qed.
 Example ex_two_clients :
   let a := mkks Raw 1 in let b := mkks Raw 2 in
   run [(a, OPut [1] [10]); (b, OPut [1] [20]); (b, ODelRange [] []); (a, OScan false [] [] 5); (b, OScan true [] [] 5)] []
